@@ -3,6 +3,7 @@ from __future__ import annotations
 
 import glob
 import os
+import math
 import random
 
 import numpy as np
@@ -74,7 +75,19 @@ def _make(case):
     src = case["src"]
     if src in sem.ATOM_CENTRED:
         els, X, flipped = geom.centre_template(rng, src, noise=rng.choice([0.0, 0.02, 0.05]))
-        return els, X, {"cls": src, "flipped": flipped}
+        info = {"cls": src, "flipped": flipped}
+        if rng.random() < 0.4:
+            # the complex sits in a larger geometry (a benzene molecule 9-12 A away): after reordering, the centre and
+            # its ligands carry large atom indices (container iteration orders depend on the magnitude of the ids)
+            k = np.arange(6) * math.pi / 3
+            ring_c = np.stack([1.39 * np.cos(k), 1.39 * np.sin(k), np.zeros(6)], axis=1)
+            ring_h = np.stack([2.48 * np.cos(k), 2.48 * np.sin(k), np.zeros(6)], axis=1)
+            shift = geom.random_rotation(rng) @ np.array([rng.uniform(9, 12), 0.0, 0.0])
+            spect = np.concatenate([ring_c, ring_h]) @ geom.random_rotation(rng).T + np.asarray(X).mean(axis=0) + shift
+            els = list(els) + [6] * 6 + [1] * 6
+            X = np.concatenate([np.asarray(X, dtype=float), spect])
+            info["spectator"] = "benzene"
+        return els, X, info
     if src == "planar":
         els, X = geom.planar_bond_template(rng, noise=rng.choice([0.0, 0.02]), twist_deg=rng.choice([0, 0, 5, -8]))
         return els, X, {"cls": "PlanarBond"}
